@@ -36,6 +36,9 @@ mod utilities;
 //#[cfg(any(test, doctest))] //TODO: Enable once doctest is stabilised
 pub mod test_utilities;
 
+#[cfg(agdb_verif)]
+pub mod verif;
+
 #[cfg(any(feature = "serde", feature = "openapi"))]
 pub use query::QueryType;
 
